@@ -236,6 +236,9 @@ pub fn run_c16(ctx: &mut Ctx) {
                         if x == 1.0 {
                             convertible += 1;
                         }
+                        if x == 98.6 && i != j && ctx.wants_sample("convert") {
+                            ctx.sample("convert", json!({"from": a.name(), "to": b.name(), "x": x, "converted": y, "formula": expect}));
+                        }
                     }
                     Ok(Err(_)) => {
                         if same_dim {
@@ -300,6 +303,9 @@ pub fn run_c16(ctx: &mut Ctx) {
         let a = Number { value: x, unit: ua };
         let b = Number { value: y, unit: ub };
         ctx.eval("number-arith", crate::prng::mix(&[x.to_bits(), y.to_bits(), ua.map_or(0, |u| u as *const Unit as u64), ub.map_or(0, |u| u as *const Unit as u64)]), true);
+        if ctx.wants_sample("number-arith") {
+            ctx.sample("number-arith", json!({"a": format!("{x} {}", ua.map_or("", |u| u.name())), "b": format!("{y} {}", ub.map_or("", |u| u.name()))}));
+        }
         let both = ua.is_some() && ub.is_some();
         let same_unit = match (ua, ub) {
             (Some(p), Some(q)) => same(p, q),
